@@ -106,13 +106,14 @@ pub struct Sf {}
 pub struct Se {}
 
 // derived: the reference unit of the RESULT has no SI prefix while other units of it have one
-// (every unit is eligible for `_fit`, prefixed or not)
+// (every unit is eligible for `_fit`, prefixed or not), one of them an alias of scale one
 #[quantity(Se * Sc)]
 #[ref_unit(Sg_Ref, "g")]
 #[unit(Sg_Kilo, "kg", KILO, 1000)]
 #[unit(Sg_Deca, "dag", DECA, 10)]
 #[unit(Sg_Big, "Bg", 500)]
 #[unit(Sg_Centi, "cg", CENTI, 0.01)]
+#[unit(Sg_Unit, "ug", NONE, 1, "SI-prefixed alias of scale one: the reference unit still comes first")]
 pub struct Sg {}
 
 // the two very large types live in their own file: the kernel-evaluated theorems over the synthetic
